@@ -71,9 +71,9 @@ func cmdRun(symf, vecf, obsf, tlf string) {
 		go func() { defer close(done); ad(v, o) }()
 		select {
 		case <-done:
-		case <-time.After(20 * time.Second):
+		case <-time.After(120 * time.Second): // generous: the machine may be heavily loaded; a stall is "undecided", never a verdict
 			vb, _ := json.Marshal(v)
-			fail("STALL: no result after 20s for %s %s", ty, vb)
+			fail("STALL: no result after 120s for %s %s", ty, vb)
 		}
 		if os.Getenv("CODEC_RAW") == "1" {
 			o.Raw = map[string]string{}
@@ -99,6 +99,9 @@ func cmdRun(symf, vecf, obsf, tlf string) {
 			enc := map[string]string{}
 			for p, b := range o.bytes {
 				enc[p] = string(b)
+				if len(b) > 600 {
+					enc[p] = string(b[:600]) + fmt.Sprintf(" ... (%d bytes)", len(b))
+				}
 			}
 			samples = append(samples, Rec{"ty": ty, "v": v, "encodings": enc, "decoded": o.Dec})
 		}
